@@ -55,7 +55,7 @@ def budget(tier):
 
 
 def strategy(tier):
-    return st.builds(lambda g, f, cache, order: {"g": g, "f": f, "cache": cache, "order": order}, st.one_of(graphs.graph_descs(), graphs.graph_descs(classes=12, wide=True), graphs.graph_descs(classes=12, wide=True, min_v=2, min_e=2), graphs.eq_graph_descs()), graphs.filter_specs_objs, st.booleans(), st.integers(0, 5))
+    return st.builds(lambda g, f, cache, order: {"g": g, "f": f, "cache": cache, "order": order}, st.one_of(graphs.graph_descs(), graphs.graph_descs(classes=12, wide=True), graphs.with_scale(graphs.graph_descs(classes=12, wide=True, min_v=2, min_e=2), hubs=(65, 70), chains=(), rate=60), graphs.eq_graph_descs()), graphs.filter_specs_objs, st.booleans(), st.integers(0, 5))
 
 
 _TABLE_FILTERS = [None, {"ft": "pair", "mask": 0xFFFF}, {"ft": "pair", "mask": 0}, {"ft": "pair", "mask": 0, "falsy": True}, {"ft": "edge", "mask": 0b01, "falsy": True}] + [
